@@ -297,6 +297,26 @@ def check_call(c, clsname, n, edges, order, shadow, plain):
     c.check(dict(d) == base, 'C16:Dict.__call__:receiver-unchanged', '%s changed d to %r' % (txt, dict(d)), call)
 
 
+def check_call_named(c, clsname, name):
+    """an item of the mapping named like a parameter of one of the implementation's own functions (`key`, `value`, `function` ...): a callable
+    that asks for it by that name gets the mapping's value, in d(k0 = f), d[f] and d.apply(f)"""
+    cls = get_cls(clsname)
+    call = dict(kind='call_named', cls=clsname, name=name)
+    base = {name: 'N', 'x': 'X'}
+    f = fn('k0', [name, 'x'])
+    want = ('k0', 'N', 'X')
+    for how, run in (('d(k0 = f)', lambda d: d(k0=f)['k0']), ('d[f]', lambda d: d[f]), ('d.apply(f)', lambda d: d.apply(f))):
+        d = cls(base)
+        txt = '%s(%r): %s with f = lambda %s, x: ...' % (clsname, base, how, name)
+        try:
+            r = run(d)
+        except Exception as e:      # noqa
+            c.check(False, 'C16:Dict.__call__:raises:item-named-like-a-parameter', '%s raised %r' % (txt, e), call)
+            continue
+        c.check(r == want, 'C16:Dict.__call__:value:item-named-like-a-parameter', '%s gives %r, expected %r' % (txt, r, want), call)
+        c.check(dict(d) == base, 'C16:Dict.__call__:receiver-unchanged', '%s changed d to %r' % (txt, dict(d)), call)
+
+
 def all_graphs(n):
     pairs = [(i, j) for i in range(n) for j in range(n) if i != j]
     for mask in range(1 << len(pairs)):
@@ -364,6 +384,13 @@ def run(tier, seed):
                 check_relabel(c, clsname, keys, how)
                 c.case(('relabel', clsname, tuple(keys), how), nontrivial=len(keys) > 0)
     # --- Dict.__call__
+    from rac.common import implementation_identifiers
+    for name in implementation_identifiers(('_dict', '_dictattr')):
+        if name in ('x', 'k0'):
+            continue
+        for clsname in ('Dict', 'MyDict'):
+            check_call_named(c, clsname, name)
+            c.case(('call_named', clsname, name), nontrivial=True, sample=take('call_named', dict(cls=clsname, item=name), name == 'key'))
     for n in range(1, 5):
         for g, edges in enumerate(all_graphs(n)):
             for o, order in enumerate(itertools.permutations(range(n))):
@@ -402,6 +429,8 @@ def replay(call):
         check_dictattr_update(c, call['cls'], call['keys'], call['okeys'], call['okind'])
     elif kind == 'relabel':
         check_relabel(c, call['cls'], call['keys'], call['how'])
+    elif kind == 'call_named':
+        check_call_named(c, call['cls'], call['name'])
     elif kind == 'call':
         check_call(c, call['cls'], call['n'], call['edges'], call['order'], call['shadow'], call['plain'])
     else:
